@@ -12,7 +12,7 @@ MkExt(sh, k, at) == IF k > Len(sh) THEN <<>>
                          IN <<[s |-> at, h |-> h, e |-> e, dep |-> sh[k].dep]>> \o MkExt(sh, k + 1, e)
 Extents(sh) == LET E == MkExt(sh, 1, MAGIC)
                IN [k \in 1..Len(E) |-> [s |-> E[k].s, h |-> E[k].h, e |-> E[k].e,
-                                        deps |-> {<<E[j].h, E[j].e - TR>> : j \in E[k].dep}]]
+                                        deps |-> {<<E[j].h, E[j].e - TR>> : j \in E[k].dep}, dtx |-> E[k].dep]]
 Sh(m, b, dep) == [m |-> m, b |-> b, dep |-> dep]
 Shapes == { <<Sh(0, 2, {}), Sh(1, 0, {}), Sh(0, 3, {1})>>,
             <<Sh(1, 2, {}), Sh(0, 2, {1}), Sh(0, 1, {1, 2})>>,
